@@ -292,6 +292,13 @@ func (s *Scenario) buildDoc(rng *rand.Rand) *genesis.Document {
 		staking.GasOpAllow:                   11,
 		staking.GasOpWithdraw:                13,
 	}
+	txByteGas := transaction.Gas(1)
+	if s.Seed%5 == 2 {
+		// A network without gas costs for the size of a transaction and for the staking methods (test
+		// networks): transactions WITHOUT a fee field can then execute successfully. (No PRNG draw.)
+		txByteGas = 0
+		stakingGas = transaction.Costs{}
+	}
 	st := staking.Genesis{
 		Parameters: staking.ConsensusParameters{
 			DebondingInterval: beacon.EpochTime(p.DebondInterval),
@@ -515,7 +522,7 @@ func (s *Scenario) buildDoc(rng *rand.Rand) *genesis.Document {
 				StateCheckpointInterval:  p.CheckpointEvery,
 				StateCheckpointNumKept:   2,
 				StateCheckpointChunkSize: 8 * 1024,
-				GasCosts:                 transaction.Costs{consensusGenesis.GasOpTxByte: 1},
+				GasCosts:                 transaction.Costs{consensusGenesis.GasOpTxByte: txByteGas},
 				FeatureVersion:           &fv,
 			},
 		},
